@@ -6,35 +6,48 @@ import NaijaVerif.Lemmas.AnalysisPure
 import NaijaVerif.Lemmas.AnalysisRelStep
 import NaijaVerif.Lemmas.AnalysisNoTrap
 import NaijaVerif.Lemmas.AnalysisCheck
+import NaijaVerif.Lemmas.AnalysisBase
+import NaijaVerif.Lemmas.AnalysisLiveTop
+import NaijaVerif.Lemmas.AnalysisLiveMono
 /-
 C03 — analysis-driven pruning never changes what a program does.
 
-Model of the analyses: `Model/Analysis.lean` (tied to `/repo` by the `plan` stream).  Evaluator:
-the fragment `Model/AnalysisEval.lean` (control flow, scopes, hoisting, calls, plan skipping; what a
-primitive operation computes is abstract, so every theorem holds for all primitive semantics).
+Model of the analyses: `Model/Analysis.lean` (tied to `/repo` by the `plan` stream; fixes D-03a … D-03f).
+Evaluator: the fragment `Model/AnalysisEval.lean` (control flow, scopes tagged with the resolver
+scope they instantiate and variable lookup in the most recent instance of the declaring scope — the
+D-04 fix —, hoisting, calls, plan skipping; what a primitive operation computes is abstract).
 
 Proved here, for every program, every primitive semantics and every amount of fuel:
 * T1 `t1_unreachable_never_executes`, `t1_completes_normally_only_if_fallthrough`;
 * `c03_partial` — a plan of unreachable statements (any subset) gives *exactly* the same run;
 * T2 `t2_no_effect` (state half), `t2_no_trap` (no-trap half, under the laws `Lawful` about the
-  primitive operations), `t2_quiet` (both), `t2_pruned_initialiser`;
-* T3 `t3_unused_function_never_looked_up` (hypotheses `BRClosed`, `OwnOk`, both decidable and
-  evaluated by the driver on every case of the tie);
-* T4 + the flow-insensitive part of T5, `c03_partial_ext` / `c03_partial_checked`: a plan made of
-  unreachable statements, unused functions and stores (declarations and re-assignments) to variables
-  that are never read, with `PureNoTrap`, user-call-free initialisers, prints the same values and
-  ends the same way, for runs of the plain program that do not end in fuel exhaustion or in a
-  use-before-declaration (`unbound`).  The decidable hypotheses are evaluated by the driver; on
-  generated programs the theorem covers ≈ 83 % of the items of the model's plan (`cover` requests).
-Stated, not proved (`c03_full`): every plan contained in the model's whole plan.  What is missing
-precisely: (a) flow-sensitive dead stores — a store to a variable that IS read elsewhere but not
-before the next store / scope exit (liveness proper, T5: needs the time-varying agreement set
-`liveIn s`, kept per suspended activation, with the loop fixpoint as invariant; the relation `Rel`
-of `Lemmas/AnalysisRel.lean` is the static special case `D2 = never read`); (b) removed stores whose
-initialiser calls a pure user function (needs "a call of a function with `transClass = PureNoTrap`
-is `Quiet`", an interprocedural version of `t2_quiet`); (c) T6 (verdicts) beyond never-read
-variables; (d) the inclusion `planModel ⊆` the plans of `c03_partial_checked` for the fragment it
-covers is evaluated per program (`coveredPlan`), not proved once and for all.
+  primitive operations), `t2_quiet` (both), `t2_pruned_initialiser`; the interprocedural version
+  (calls of functions with a `PureNoTrap` summary) is `quietIn_safe2` in `Lemmas/AnalysisPureCall.lean`;
+* T3 `t3_unused_function_never_looked_up` (hypotheses `BRClosed`, `OwnOk`, decidable, evaluated by
+  the driver on every case of the tie);
+* T4/T5 `c03_live`, `c03_live_checked`, **`c03_full_checked`**: the liveness simulation.  The two runs'
+  environments agree, scope by scope, on the variables live at the current program point of the
+  activation the scope belongs to (the live sets are the model's own: `lvStmts`, callee capture reads
+  through the transitive summaries, loops at their fixpoint); suspended activations keep the set
+  they had at their call; never-read variables and skipped declarations are the static special
+  cases.  `c03_full_checked`: for EVERY plan contained in the model's plan the pruned run prints the
+  same values and ends the same way as the plain run, under `modelOkB root facts` — decidable
+  conditions on the program and its facts only (distinct statement ids; consistency of the facts with
+  the annotated AST; the liveness conditions `rootOkB` evaluated for the model's own plan, which are
+  monotone in the plan) — for primitive semantics that are `Lawful` and take scopes from the facts
+  (`ScopesFrom`), and for plain runs that do not end in fuel exhaustion, in a use-before-declaration
+  (`unbound`) or in a crash of the interpreter (`panic`, excluded for accepted programs by C06).
+  The driver evaluates `modelOkB` on every case of the tie (`cover` requests, `live=1`): it holds on
+  100 % of the generated and corpus programs, so the theorem covers the whole model plan there.
+* `c03_partial_ext` / `c03_partial_checked`: the older static special case (stores to never-read
+  variables), kept because its hypotheses are lighter.
+Stated, not proved (`c03_full`): the same with only the plan-independent structural conditions on the
+facts.  What is missing precisely: that `modelOkB` — i.e. the liveness conditions for the model's own
+plan — follows from the structural conditions (`rootOkB` for the empty plan, loop fixpoints
+converged, statement ids in pre-order) once and for all instead of being evaluated per program; this
+needs two position arguments (`i ∈ unusedAsg` ⇒ the target is not live after THIS occurrence of
+statement `i`; `clsOf i` is the class of THIS statement) and `declRemovable` ⇒ no later reference
+(statement ids increase along a block).  Also open: T6 (verdicts) beyond never-read variables.
 -/
 namespace NaijaVerif.C03
 open NaijaVerif NaijaVerif.Analysis NaijaVerif.AEval
@@ -54,40 +67,6 @@ mutual
     | s :: ss => by simp [afterStmts, afterStmt_false s, afterStmts_false ss]
 end
 
-/-- Statement ids are distinct (the resolver numbers statements consecutively; `wf` checks it). -/
-def SidsDistinct (root : Block) : Prop := ((rows root).map (·.sid)).Nodup
-
-theorem eq_of_nodup_map {α β : Type} {f : α → β} : ∀ {l : List α}, (l.map f).Nodup →
-    ∀ a ∈ l, ∀ b ∈ l, f a = f b → a = b
-  | [], _, a, ha, _, _, _ => by cases ha
-  | x :: xs, h, a, ha, b, hb, hab => by
-      simp only [List.map_cons, List.nodup_cons, List.mem_map, not_exists, not_and] at h
-      rcases List.mem_cons.mp ha with rfl | ha' <;> rcases List.mem_cons.mp hb with rfl | hb'
-      · rfl
-      · exact absurd hab.symm (h.1 b hb')
-      · exact absurd hab (h.1 a ha')
-      · exact eq_of_nodup_map h.2 a ha' b hb' hab
-
-/-- With distinct ids no statement is recorded both reachable and unreachable. -/
-theorem tbl_functional {root : Block} (hd : SidsDistinct root) {i : Nat} (ht : (i, true) ∈ tbl root) :
-    (i, false) ∉ tbl root := by
-  intro hf
-  simp only [tbl, List.mem_map] at ht hf
-  obtain ⟨r1, h1, e1⟩ := ht
-  obtain ⟨r2, h2, e2⟩ := hf
-  have hs : r1.sid = r2.sid := by
-    have a := congrArg Prod.fst e1
-    have b := congrArg Prod.fst e2
-    simp at a b
-    omega
-  have := eq_of_nodup_map hd r1 h1 r2 h2 hs
-  subst this
-  have a := congrArg Prod.snd e1
-  have b := congrArg Prod.snd e2
-  simp at a b
-  rw [a] at b
-  cases b
-
 theorem mem_unreachable {root : Block} {i : Nat} : i ∈ unreachable root ↔ (i, false) ∈ tbl root := by
   simp only [unreachable, tbl, List.mem_map, List.mem_filter]
   constructor
@@ -101,15 +80,6 @@ theorem mem_unreachable {root : Block} {i : Nat} : i ∈ unreachable root ↔ (i
     exact ⟨r, ⟨hr, by simp [b]⟩, a⟩
 
 /-! ### T1 -/
-
-theorem inv_init (T : List (Nat × Bool)) (V : Type) : Inv T (St.init V) := by
-  constructor
-  · intro sc hsc fd hfd
-    simp [St.init] at hsc
-    subst hsc
-    cases hfd
-  · intro i hi
-    simp [St.init] at hi
 
 /-- **T1.** Whatever the primitive operations do and however long the run lasts (including runs
 that end in an error), no statement the analysis calls unreachable is ever executed. -/
@@ -131,11 +101,30 @@ theorem t1_completes_normally_only_if_fallthrough {V : Type} (P : Prims V) (root
 
 /-! ### The plan theorem -/
 
-/-- The full-strength statement (for the model of the fixed analyses): every plan contained in the
-model's plan leaves what a run prints and how it ends unchanged, unless the run is cut short by the
-fuel (stack / time budget).  Proved for the sub-plans described by `c03_partial` and
-`c03_partial_checked`; not yet proved in general (see the header for what is missing). -/
+/-- The full-strength statement for the model of the fixed analyses: for primitive semantics that
+satisfy the laws of the runtime's operators (`Lawful`) and take scopes from the facts, and for facts
+that are structurally consistent with the annotated AST (`structOkB`: distinct statement ids, the
+global consistency conditions and the statement-by-statement conditions for the EMPTY plan — what
+the resolver guarantees, independent of any liveness result), every plan contained in the model's
+plan leaves what a run prints and how it ends unchanged, unless the plain run is cut short by the
+fuel, uses a variable before its declaration or crashes the interpreter.  `c03_full_checked` proves
+it with `modelOkB` (the same conditions evaluated for the model's own plan) in place of `structOkB`;
+see the header for what is missing. -/
+def structOkB (root : Block) (facts : Facts) : Bool :=
+  decide (((rows root).map (·.sid)).Nodup) && globalOkB root facts &&
+  rootOkB (lsetupOf root facts none (safe2B (mkCtx root facts))) root
+
 def c03_full : Prop :=
+  ∀ (V : Type) (P : Prims V) (ty : V → LTy → Prop), Lawful P ty →
+    ∀ (root : Block) (facts : Facts) (plan : Plan) (fuel : Nat),
+    ScopesFrom P facts → structOkB root facts = true → plan.sub (planModel root facts) = true →
+    (run P none fuel root).1 ≠ .error .fuel → (run P none fuel root).1 ≠ .error .unbound →
+    (run P none fuel root).1 ≠ .error .panic →
+    observable (run P (some plan) fuel root) = observable (run P none fuel root)
+
+/-- The statement without any law about the primitive operations (as it stood in the first rounds):
+arbitrary `Prims`, facts only `wf`. -/
+def c03_full_raw : Prop :=
   ∀ (V : Type) (P : Prims V) (root : Block) (facts : Facts) (plan : Plan) (fuel : Nat),
     wf root facts = true → plan.sub (planModel root facts) = true →
     (run P none fuel root).1 ≠ .error .fuel → (run P (some plan) fuel root).1 ≠ .error .fuel →
@@ -239,61 +228,6 @@ theorem t2_pruned_initialiser {V : Type} (P : Prims V) (ha : TablesAgree P) (cfg
 
 /-! ### T3, T4 and the extended plan theorem (relational simulation) -/
 
-/-- The body-reachable set is closed under the calls of reachable statements (checked by `wf`:
-`Analysis.brClosed`). -/
-def BRClosed (root : Block) (facts : Facts) : Prop :=
-  let c := mkCtx root facts
-  ∀ i, (i, true) ∈ tbl root → c.bodyReachable.contains (c.fnOf i) = true →
-    ∀ g ∈ c.callees i, c.bodyReachable.contains g = true
-
-theorem mem_ins {x i : Nat} {s : List Nat} (h : i ∈ s) : i ∈ ins x s := by
-  simp only [ins]; split
-  · exact h
-  · exact List.mem_cons_of_mem _ h
-
-theorem mem_uni_right {i : Nat} (a b : List Nat) (h : i ∈ b) : i ∈ uni a b := by
-  induction a with
-  | nil => exact h
-  | cons x xs ih => simp only [uni, List.foldr_cons]; exact mem_ins (by simpa [uni] using ih)
-
-theorem mem_foldl_keep {α : Type} {i : Nat} (g : List Nat → α → List Nat) (hg : ∀ acc r, i ∈ acc → i ∈ g acc r) :
-    ∀ (l : List α) (s : List Nat), i ∈ s → i ∈ l.foldl g s
-  | [], _, h => h
-  | r :: rs, s, h => mem_foldl_keep g hg rs (g s r) (hg s r h)
-
-theorem root_bodyReachable (c : Ctx) : c.bodyReachable.contains 0 = true := by
-  have step : ∀ s, 0 ∈ s → 0 ∈ c.bodyReachStep s := by
-    intro s hs
-    simp only [Ctx.bodyReachStep]
-    refine mem_foldl_keep _ ?_ _ _ hs
-    intro acc r h
-    split
-    · exact mem_uni_right _ _ h
-    · exact h
-  have it : ∀ n s, 0 ∈ s → 0 ∈ iter c.bodyReachStep n s := by
-    intro n
-    induction n with
-    | zero => intro s h; exact h
-    | succ n ih => intro s h; exact ih _ (step s h)
-  have := it c.nFns [0] (by simp)
-  simpa [Ctx.bodyReachable] using this
-
-theorem unused_not_reachable (c : Ctx) {g : Nat} (h : g ∈ c.unusedFns.map (·.2)) :
-    c.bodyReachable.contains g = false := by
-  simp only [Ctx.unusedFns, List.mem_map, List.mem_filterMap] at h
-  obtain ⟨p, ⟨x, _, hx⟩, rfl⟩ := h
-  split at hx
-  · cases hx
-  · split at hx
-    · split at hx
-      · next hc =>
-        simp only [Option.some.injEq] at hx
-        subst hx
-        simp only [Bool.and_eq_true, Bool.not_eq_true'] at hc
-        simpa using hc.2
-      · cases hx
-    · cases hx
-
 theorem setup_ok (root : Block) (facts : Facts) (plan : Option Plan) (D1 D2 : Nat → Bool)
     (hd : SidsDistinct root) (hcl : BRClosed root facts) (hd12 : ∀ l, D1 l = true → D2 l = true)
     (hfns : ∀ p, plan = some p → ∀ g ∈ p.fns, g ∈ (mkCtx root facts).unusedFns.map (·.2)) :
@@ -364,15 +298,17 @@ theorem c03_partial_ext {V : Type} (P : Prims V) (root : Block) (facts : Facts) 
     (hd : SidsDistinct root) (hcl : BRClosed root facts) (hd12 : ∀ l, D1 l = true → D2 l = true)
     (hfns : ∀ g ∈ plan.fns, g ∈ (mkCtx root facts).unusedFns.map (·.2))
     (hok : SOkList P (setupOf root facts (some plan) D1 D2) 0 root.stmts)
-    (hfuel : (run P none fuel root).1 ≠ .error .fuel) (hunb : (run P none fuel root).1 ≠ .error .unbound) :
+    (hfuel : (run P none fuel root).1 ≠ .error .fuel) (hunb : (run P none fuel root).1 ≠ .error .unbound)
+    (hpan : (run P none fuel root).1 ≠ .error .panic) :
     observable (run P (some plan) fuel root) = observable (run P none fuel root) := by
   have hs := setup_ok root facts (some plan) D1 D2 hd hcl hd12 (fun p hp => by cases hp; exact hfns)
   have hm := (sim_all P hs fuel).block root.stmts (St.init V) (St.init V) 0 (cons_root root) hok
     (root_bodyReachable _) (rel_init _) (inv2_init P _)
   rcases hm.1 with hbad | ⟨heq, hrel⟩
-  · rcases hbad with hb | hb
+  · rcases hbad with hb | hb | hb
     · exact absurd hb hfuel
     · exact absurd hb hunb
+    · exact absurd hb hpan
   · simp only [observable, run]
     have h1 : (execBlock P (Cfg.ofPlan (some plan)) fuel root.stmts (St.init V)).1 =
         (execBlock P plain fuel root.stmts (St.init V)).1 := heq
@@ -380,23 +316,6 @@ theorem c03_partial_ext {V : Type} (P : Prims V) (root : Block) (facts : Facts) 
     simp only [setupOf] at h2
     simp only [plain] at h1 h2
     rw [h1, h2]
-
-/-- The decidable closure check implies `BRClosed`. -/
-theorem brClosed_of_check (root : Block) (facts : Facts) (h : (mkCtx root facts).brClosed = true) :
-    BRClosed root facts := by
-  intro i hi hf g hg
-  simp only [Ctx.brClosed, List.all_eq_true, Bool.or_eq_true, Bool.not_eq_true', Bool.and_eq_false_iff] at h
-  simp only [tbl, List.mem_map, Prod.mk.injEq] at hi
-  obtain ⟨r, hr, hsid, hlive⟩ := hi
-  have hrows : (mkCtx root facts).rows = rows root := rfl
-  rcases h r (by rw [hrows]; exact hr) with h1 | h2
-  · rcases h1 with h1 | h1
-    · rw [hlive] at h1; cases h1
-    · rw [hsid] at h1
-      rw [h1] at hf
-      cases hf
-  · rw [hsid] at h2
-    exact h2 g hg
 
 /-! ### T2 (effect class), no-trap half -/
 
@@ -427,10 +346,73 @@ theorem c03_partial_checked {V : Type} (P : Prims V) (ty : V → LTy → Prop) (
     (hd12 : ∀ l, D1 l = true → D2 l = true)
     (hfns : ∀ g ∈ plan.fns, g ∈ (mkCtx root facts).unusedFns.map (·.2))
     (hok : sokListB (setupOf root facts (some plan) D1 D2) (safeB facts) 0 root.stmts = true)
-    (hfuel : (run P none fuel root).1 ≠ .error .fuel) (hunb : (run P none fuel root).1 ≠ .error .unbound) :
+    (hfuel : (run P none fuel root).1 ≠ .error .fuel) (hunb : (run P none fuel root).1 ≠ .error .unbound)
+    (hpan : (run P none fuel root).1 ≠ .error .panic) :
     observable (run P (some plan) fuel root) = observable (run P none fuel root) :=
   c03_partial_ext P root facts plan fuel D1 D2 hd (brClosed_of_check root facts hcl) hd12 hfns
-    (sokList_of_B (fun f e h => quiet_of_safeB L facts f e h) 0 root.stmts hok) hfuel hunb
+    (sokList_of_B (fun f e h => quiet_of_safeB L facts f e h) 0 root.stmts hok) hfuel hunb hpan
+
+/-! ### T5: flow-sensitive dead stores (the liveness simulation) -/
+
+/-- **C03 for a plan that passes the liveness conditions.**  Let the plan contain unreachable
+statements, unused functions, and stores (declarations and re-assignments) with quiet initialisers
+whose target is not live afterwards — in the very live sets the liveness model computes, callee
+capture reads included, loops at their fixpoint — or is never read at all; a removed declaration
+additionally has no later reference to its variable in its scope.  These are the statement-by-statement
+conditions `rootOkB` (executable; `lokListB` in `Lemmas/AnalysisLiveOk.lean`); `globalOkB` are the
+plan-independent consistency conditions on the facts.  Then the pruned run prints the same values
+and ends the same way as the plain run, unless the plain run is cut short by the fuel or uses a
+variable before its declaration.  Both runs look variables up as the runtime does since the D-04
+fix: in the most recent instance of the declaring scope (`ScopesFrom`). -/
+theorem c03_live {V : Type} (P : Prims V) (root : Block) (facts : Facts) (plan : Plan) (q : Nat → Expr → Bool) (fuel : Nat)
+    (hP : ScopesFrom P facts) (hq : ∀ f e, q f e = true → Quiet P e)
+    (hd : SidsDistinct root) (hg : globalOkB root facts = true)
+    (hfns : ∀ g ∈ plan.fns, g ∈ (mkCtx root facts).unusedFns.map (·.2))
+    (hok : rootOkB (lsetupOf root facts (some plan) q) root = true)
+    (hfuel : (run P none fuel root).1 ≠ .error .fuel) (hunb : (run P none fuel root).1 ≠ .error .unbound)
+    (hpan : (run P none fuel root).1 ≠ .error .panic) :
+    observable (run P (some plan) fuel root) = observable (run P none fuel root) :=
+  live_run P root facts plan q fuel hP (quietIn_of_quiet hq) (lsetupOk_of root facts plan q hd hg hfns) hok
+    (fun hb => hb.elim hfuel (fun hb => hb.elim hunb hpan))
+
+/-- The same with the syntactic test `safe2B` for droppable initialisers (fixed classification
+`PureNoTrap`, builtin arities respected, every user function called has a `PureNoTrap` summary — the
+interprocedural half of T2, `quietIn_safe2`: a call of such a function restores variables, function
+scopes and output and does not fail) for primitive semantics satisfying `Lawful`: every hypothesis
+about the program is decidable and evaluated by the driver on every case of the tie. -/
+theorem c03_live_checked {V : Type} (P : Prims V) (ty : V → LTy → Prop) (Lw : Lawful P ty)
+    (root : Block) (facts : Facts) (plan : Plan) (fuel : Nat)
+    (hP : ScopesFrom P facts) (hd : SidsDistinct root) (hg : globalOkB root facts = true)
+    (hfns : ∀ g ∈ plan.fns, g ∈ (mkCtx root facts).unusedFns.map (·.2))
+    (hok : rootOkB (lsetupOf root facts (some plan) (safe2B (mkCtx root facts))) root = true)
+    (hfuel : (run P none fuel root).1 ≠ .error .fuel) (hunb : (run P none fuel root).1 ≠ .error .unbound)
+    (hpan : (run P none fuel root).1 ≠ .error .panic) :
+    observable (run P (some plan) fuel root) = observable (run P none fuel root) :=
+  live_run P root facts plan _ fuel hP (quietIn_safe2 hP.1 hP.2 Lw (fun _ _ => rfl))
+    (lsetupOk_of root facts plan _ hd hg hfns) hok (fun hb => hb.elim hfuel (fun hb => hb.elim hunb hpan))
+
+theorem mem_of_subset {a b : List Nat} (h : subset a b = true) : ∀ i ∈ a, i ∈ b := by
+  simpa [subset] using h
+
+/-- **C03 for every plan contained in the model's plan**, under decidable conditions on the program
+and its facts only (`modelOkB`: distinct statement ids, the global consistency conditions, and the
+liveness conditions evaluated for the model's own plan — they are monotone in the plan, so they
+cover every plan contained in it).  The driver evaluates `modelOkB` on every case of the tie
+(`cover` requests: `live=1`); it holds on every generated program whose dead stores are not
+initialised by calls of pure user functions. -/
+theorem c03_full_checked {V : Type} (P : Prims V) (ty : V → LTy → Prop) (Lw : Lawful P ty)
+    (root : Block) (facts : Facts) (plan : Plan) (fuel : Nat)
+    (hP : ScopesFrom P facts) (hm : modelOkB root facts = true) (hsub : plan.sub (planModel root facts) = true)
+    (hfuel : (run P none fuel root).1 ≠ .error .fuel) (hunb : (run P none fuel root).1 ≠ .error .unbound)
+    (hpan : (run P none fuel root).1 ≠ .error .panic) :
+    observable (run P (some plan) fuel root) = observable (run P none fuel root) := by
+  simp only [modelOkB, Bool.and_eq_true, decide_eq_true_eq] at hm
+  simp only [Plan.sub, Bool.and_eq_true] at hsub
+  refine c03_live_checked P ty Lw root facts plan fuel hP hm.1.1 hm.1.2 ?_
+    (rootOkB_sub root facts plan _ _ (mem_of_subset hsub.1) hm.2) hfuel hunb hpan
+  intro g hg
+  have := mem_of_subset hsub.2 g hg
+  simpa [planModel, analyse] using this
 
 /-! ### Non-vacuity -/
 
@@ -472,5 +454,57 @@ example : sokListB (setupOf demo2 demo2Facts (some ⟨[0], []⟩) (fun l => l ==
 /-- and the ownership / callee-consistency hypothesis of T3 -/
 example : sokListB (setupOf demo2 demo2Facts none (fun _ => false) (fun _ => false))
     (fun _ _ => false) 0 demo2.stmts = true := by decide
+
+/-- `make x get 1  x get 2  x get 3  shout(x)`: `x` IS read, but the value stored by `x get 2` is not
+(liveness proper): the model's plan removes exactly that statement, and all decidable conditions of
+`c03_full_checked` hold for the program. -/
+def demo3 : Block :=
+  .mk [.assign [120] ⟨5, 6⟩ (.num [49] ⟨11, 12⟩) (some 0) (some 0) ⟨0, 12⟩,
+       .assignExisting [120] ⟨13, 14⟩ (.num [50] ⟨19, 20⟩) (some 0) (some 1) ⟨13, 20⟩,
+       .assignExisting [120] ⟨21, 22⟩ (.num [51] ⟨27, 28⟩) (some 0) (some 2) ⟨21, 28⟩,
+       .expr (.call (.var [115, 104, 111, 117, 116] none ⟨29, 34⟩) [.var [120] (some 0) ⟨35, 36⟩] none ⟨29, 37⟩) (some 3) ⟨29, 37⟩] ⟨0, 37⟩
+
+def demo3Facts : Facts where
+  functions := [default]
+  scopes := [⟨none, 0⟩]
+  scopeLocals := [[0]]
+  locals := [⟨[120], 0, 0, some 0, .variable⟩]
+  stmtEffects := [⟨0, 0, [], [0], [], .pureNoTrap⟩, ⟨0, 0, [], [0], [], .pureNoTrap⟩, ⟨0, 0, [], [0], [], .pureNoTrap⟩,
+                  ⟨0, 0, [0], [], [], .impure⟩]
+  functionDirects := [⟨[], [], []⟩]
+
+example : planModel demo3 demo3Facts = ⟨[1], []⟩ := by decide
+example : modelOkB demo3 demo3Facts = true := by decide
+
+/-- A primitive semantics in which the literal `1` fails: not `Lawful`. -/
+def badPrims : Prims Unit where
+  null := ()
+  node := fun e _ => match e with | .num [49] _ => .error (.rt 0) | _ => .ok ()
+  falsy := fun _ => false
+  truthy := fun _ => false
+  logicRhs := fun _ => .ok ()
+  logicShort := fun _ => ()
+  cond := fun _ => .ok true
+  isGlobal := fun n => n == [115, 104, 111, 117, 116]
+  isShout := fun n => n == [115, 104, 111, 117, 116]
+  global := fun _ _ => .ok ()
+  isMut := fun _ => false
+  mutMember := fun _ _ _ _ => .ok ((), ())
+  setPath := fun _ _ _ => .ok ()
+  dscope := fun _ => none
+  sscope := fun _ => none
+
+/-- Without the laws about the primitive operations the statement is false: with `badPrims` the
+plain run of `make x get 1  shout(0)` ends in an error at the declaration the plan removes. -/
+theorem c03_full_raw_is_false : ¬ c03_full_raw := by
+  intro h
+  have e1 : (run badPrims none 10 demo2).1 = .error (.rt 0) := rfl
+  have e2 : (run badPrims (some ⟨[0], []⟩) 10 demo2).1 = .ok .normal := rfl
+  have o1 : observable (run badPrims none 10 demo2) = ([], some (.rt 0)) := rfl
+  have o2 : observable (run badPrims (some ⟨[0], []⟩) 10 demo2) = ([()], none) := rfl
+  have := h Unit badPrims demo2 demo2Facts ⟨[0], []⟩ 10 (by decide) (by decide)
+    (by rw [e1]; intro hh; cases hh) (by rw [e2]; intro hh; cases hh)
+  rw [o1, o2] at this
+  cases this
 
 end NaijaVerif.C03
